@@ -179,6 +179,15 @@ func MonC14Status(c *MonCtx) {
 	} else if st.Canary != nil && st.Canary.ReplicaSet != up.Name {
 		bad("status.canary.replicaSet is not the replica set matching spec.template", st.Canary.ReplicaSet)
 	}
+	if want != v1.ExtendedDaemonSetStatusStateCanaryPaused && st.Reason != "" {
+		bad("status.reason is set although the state is not Canary Paused", fmt.Sprintf("state=%q reason=%q", st.State, st.Reason))
+	}
+	if !hasCanary {
+		cf, cp := EDSCond(e1, v1.ConditionTypeEDSCanaryFailed), EDSCond(e1, v1.ConditionTypeEDSCanaryPaused)
+		if cf != nil && cf.Status == corev1.ConditionTrue || cp != nil && cp.Status == corev1.ConditionTrue {
+			bad("a Canary-Paused / Canary-Failed condition is true although there is no canary strategy", "")
+		}
+	}
 	if hasCanary {
 		cf, cp := EDSCond(e1, v1.ConditionTypeEDSCanaryFailed), EDSCond(e1, v1.ConditionTypeEDSCanaryPaused)
 		if (cf != nil && cf.Status == corev1.ConditionTrue) != failed {
